@@ -106,7 +106,7 @@ func newScenario(cfg []string) (hx.Handler, string) {
 		r.URL = utils.CopyURL(s.urls[o.be])
 		fwd.ServeHTTP(w, r)
 	})
-	s.srv = httptest.NewUnstartedServer(wrap)
+	s.srv = hx.NewUnstartedServer(wrap)
 	if ln, err := fx.Listen(); err == nil {
 		s.srv.Listener.Close()
 		s.srv.Listener = ln
